@@ -14,6 +14,8 @@ CONSTANTS
   BitmapExcludeExact = FALSE
   ProvidersAgree = TRUE
   DeleteDropsPacked = TRUE
+  CgHonoursShallow = TRUE
+  Focus = "all"
 INVARIANT TypeOK
 INVARIANT Transparent
 VIEW view
